@@ -31,6 +31,18 @@ func c12(c *core.Ctx) string {
 	return "Information-flow audit of the route cache: the cached decision must be a function of the key (host, method, path) and of facts re-validated on a hit. Decided path-sensitively over all paths of muxInstance.search (disjunctive states correlate the mismatch flags with the dependence events), plus key construction and cache freshness. Not decided: ARC eviction, correctness of the uncached search (C01/C05)."
 }
 
+// c12SearchIPOnly reports only the IP-related cache obligations (R-C12-2) under another rule id.
+func c12SearchIPOnly(c *core.Ctx, s *searchInfo, rule string) {
+	c.Alias("R-C12-2", rule)
+	c.Alias("R-C12-1", "-")
+	c.Alias("R-C12-4", "-")
+	c12Search(c, s)
+	c.Alias("R-C12-2", "")
+	c.Alias("R-C12-1", "")
+	c.Alias("R-C12-4", "")
+	c.Drop("-")
+}
+
 func c12Search(c *core.Ctx, s *searchInfo) {
 	f := s.f
 	if !c.RequireCount("R-C12-1", "cache put call sites in search", len(s.puts), 2) {
